@@ -213,6 +213,7 @@ type seqView struct {
 	get func(i *Term) Value
 	max int
 	g   *Term
+	big bool // SMT-array backed
 }
 
 func (e *Engine) views(st *State, v Value, site string) []seqView {
@@ -231,7 +232,8 @@ func (e *Engine) views(st *State, v Value, site string) []seqView {
 			if !ok {
 				mx = -1
 			}
-			out = append(out, seqView{len: al.Len, max: mx, g: al.G, get: func(i *Term) Value { return e.sliceGet(st, al, i) }})
+			_, isBig := e.bigLeaves(st, al.Base)
+			out = append(out, seqView{len: al.Len, max: mx, g: al.G, big: isBig, get: func(i *Term) Value { return e.sliceGet(st, al, i) }})
 		}
 		return out
 	}
@@ -371,6 +373,7 @@ func (e *Engine) bulkCopy(st *State, d SliceAlt, src Value, s seqView, n *Term, 
 func (e *Engine) appendBuiltin(st *State, s *SliceV, t Value, elem types.Type, site string) *SliceV {
 	tvs := e.views(st, t, site)
 	out := &SliceV{}
+	_, flat := flatLeaves(elem)
 	for _, sa := range s.A {
 		for _, tv := range tvs {
 			g := And(sa.G, tv.g)
@@ -381,36 +384,64 @@ func (e *Engine) appendBuiltin(st *State, s *SliceV, t Value, elem types.Type, s
 				g = True()
 			}
 			n := tv.len
-			nmax := tv.max
-			if nmax < 0 {
-				panic(unsupported("append of unbounded symbolic length at " + site))
-			}
+			nmax := tv.max // -1: unbounded
 			newLen := Add(sa.Len, n)
 			fits := Ule(newLen, sa.Cap)
 			if sa.Base == nil {
 				fits = Eq(n, BVu(0, 64))
 			}
-			tvals := make([]Value, nmax)
-			for k := 0; k < nmax; k++ {
-				tvals[k] = tv.get(BVu(uint64(k), 64))
+			var dstBig *BigArrV
+			if sa.Base != nil {
+				dstBig, _ = e.bigLeaves(st, sa.Base)
 			}
 			gin := And(g, fits)
 			if !gin.IsFalse() {
 				if sa.Base != nil {
-					for k := 0; k < nmax; k++ {
-						K := BVu(uint64(k), 64)
-						e.sliceSet(st, sa, Add(sa.Len, K), tvals[k], And(gin, Ult(K, n)))
+					// how many elements can an in-place append write at most
+					w := nmax
+					if capC, ok1 := sa.Cap.ConstInt(); ok1 {
+						if lenC, ok2 := sa.Len.ConstInt(); ok2 && (w < 0 || capC-lenC < w) {
+							w = capC - lenC
+						}
+					}
+					if dstBig != nil && (w < 0 || w > 64) {
+						d := SliceAlt{G: gin, Base: sa.Base, Off: Add(sa.Off, sa.Len), Len: n, Cap: n}
+						if !e.bulkCopy(st, d, t, tv, n, gin) {
+							panic(unsupported("in-place append into SMT-array backed slice at " + site))
+						}
+					} else {
+						if w < 0 {
+							if lb, ok := e.lenBound(st, sa); ok {
+								// element-wise backing: at most its size
+								root := st.heap[sa.Base.Obj]
+								if av, isArr := readPath(root, sa.Base.Path).(*ArrayV); isArr {
+									w = len(av.E)
+								}
+								_ = lb
+							}
+						}
+						if w < 0 {
+							panic(unsupported("in-place append of unbounded length at " + site))
+						}
+						for k := 0; k < w; k++ {
+							K := BVu(uint64(k), 64)
+							e.sliceSet(st, sa, Add(sa.Len, K), tv.get(K), And(gin, Ult(K, n)))
+						}
 					}
 				}
 				out.A = append(out.A, SliceAlt{G: gin, Base: sa.Base, Off: sa.Off, Len: newLen, Cap: sa.Cap})
 			}
 			gre := And(g, Not(fits))
-			if !gre.IsFalse() {
-				lmax, ok := e.lenBound(st, sa)
-				if !ok {
-					panic(unsupported("append to slice of unbounded symbolic length at " + site))
-				}
+			if gre.IsFalse() {
+				continue
+			}
+			lmax, lok := e.lenBound(st, sa)
+			if lok && nmax >= 0 && lmax+nmax <= 4096 && dstBig == nil && !tv.big {
 				total := lmax + nmax
+				tvals := make([]Value, nmax)
+				for k := 0; k < nmax; k++ {
+					tvals[k] = tv.get(BVu(uint64(k), 64))
+				}
 				es := make([]Value, total)
 				z := zeroValue(elem)
 				oldLenC, lenIsC := sa.Len.ConstInt()
@@ -430,7 +461,6 @@ func (e *Engine) appendBuiltin(st *State, s *SliceV, t Value, elem types.Type, s
 						}
 						continue
 					}
-					// symbolic old length: select appended element by position
 					var fromNew Value = z
 					rel := Sub(K, sa.Len)
 					for q := nmax - 1; q >= 0; q-- {
@@ -440,7 +470,26 @@ func (e *Engine) appendBuiltin(st *State, s *SliceV, t Value, elem types.Type, s
 				}
 				l := e.alloc(st, &ArrayV{E: es, T: elem})
 				out.A = append(out.A, SliceAlt{G: gre, Base: l, Off: BVu(0, 64), Len: newLen, Cap: newLen})
+				continue
 			}
+			// large or symbolic sizes: fresh SMT-array backed object defined pointwise
+			if !flat {
+				panic(unsupported("append of unbounded length with non-flat elements at " + site))
+			}
+			nb := newBigArr(elem, newLen, "")
+			ws, _ := flatLeaves(elem)
+			for li := range ws {
+				TF.fresh++
+				j := Var(fmt.Sprintf("j!%d", TF.fresh), 64)
+				var oldv *Term = BVu(0, ws[li])
+				if sa.Base != nil {
+					oldv = packLeaves(e.sliceGet(st, sa, j), elem)[li]
+				}
+				newv := packLeaves(tv.get(Sub(j, sa.Len)), elem)[li]
+				nb.Leaves[li] = Lambda(j, Ite(Ult(j, sa.Len), oldv, Ite(Ult(j, newLen), newv, BVu(0, ws[li]))))
+			}
+			l := e.alloc(st, nb)
+			out.A = append(out.A, SliceAlt{G: gre, Base: l, Off: BVu(0, 64), Len: newLen, Cap: newLen})
 		}
 	}
 	if len(out.A) == 1 {
@@ -497,6 +546,8 @@ func (e *Engine) builtin(st *State, ci *callInfo, b *ssa.Builtin, args []Value) 
 		return nil
 	case "print", "println":
 		return nil
+	case "recover":
+		return nilIface() // panicking paths are terminated, so no panic is ever in flight in a deferred call
 	case "min", "max":
 		acc := args[0].(*Term)
 		sg := isSigned(ci.common.Args[0].Type())
